@@ -75,13 +75,13 @@ def generators(tier, seed):
     g.append(dict(name="rx_edge", machine="tokio", ins=rotation_pairs(seed, 10, 3) if q else all_pairs, outs=[[]], modes=["free"],
                   chunk="edge", max_chunks=3, max_calls=8, max_faults=1, inv="ObsOk PkInv TokInv"))
     # (b) TokioTransport, send direction: below, at and above the backpressure boundary
-    g.append(dict(name="tx_all", machine="tokio", ins=[[]], outs=[[5], [5, 6]] if q else [[5], [5, 6], [7, 5], [5, 5, 5]], modes=["free"],
+    g.append(dict(name="tx_all", machine="tokio", ins=[[]], outs=[[5], [7]] if q else [[5], [7], [5, 6]], modes=["free"],
                   chunk="all", max_chunks=0, max_calls=10 if q else 12, max_faults=1 if q else 2, inv="ObsOk TokInv"))
-    tx_big = [[8191, 5], [8192, 5], [8193, 6], [5, 8187, 22], [65537, 22], [131075, 5]]
+    tx_big = [[5, 6], [8191, 5], [8192, 5], [8193, 6], [5, 8187, 22], [65537, 22], [131075, 5]]
     if not q:
         tx_big += [[22, 8169, 5], [8191, 8193], [65536, 65535, 6], [5, 6, 8181, 22], [131075, 131075]]
     g.append(dict(name="tx_edge", machine="tokio", ins=[[]], outs=tx_big, modes=["free"],
-                  chunk="edge", max_chunks=0, max_calls=9 if q else 11, max_faults=1 if q else 2, inv="ObsOk TokInv"))
+                  chunk="edge", max_chunks=3 if q else 4, max_calls=9 if q else 11, max_faults=1 if q else 2, inv="ObsOk TokInv"))
     # (b) both directions interleaved
     g.append(dict(name="mix", machine="tokio", ins=[[5, 6]] if q else [[5, 6], [22, 8193]], outs=[[6, 5]] if q else [[6, 5], [8192, 5]], modes=["free"],
                   chunk="edge", max_chunks=2, max_calls=8 if q else 9, max_faults=1, inv="ObsOk PkInv TokInv"))
